@@ -207,7 +207,8 @@ void h_clear_white_list(void) { SETUP; clear_white_list(w); BT_CANARY(); }
 void h_white_list_free_size(void) { SETUP; white_list_free_size(w); BT_CANARY(); }
 void h_wl_ctor(void) { SETUP; wl_ctor(w); BT_CANARY(); }
 """, enforce=['add_to_white_list', 'remove_from_white_list', 'clear_white_list', 'white_list_free_size', 'wl_ctor'],
-         replace=['is_in_white_list', 'wl_find'], replay=dict(src='replay/c26_replay.cpp', repo_sources=['bluetoe/utility/address.cpp'])),
+         replace=['is_in_white_list', 'wl_find'], quick_defines=['WL_MAX=4'], thorough_defines=['WL_MAX=8'], timeout=900,
+         replay=dict(src='replay/c26_replay.cpp', repo_sources=['bluetoe/utility/address.cpp'])),
 
     dict(name='filters',
          extracts=dict(SW_EX,
@@ -276,7 +277,7 @@ META = dict(
                 "distinct) preserved by every operation; add is idempotent, fails only when full, keeps every other member; remove deletes "
                 "exactly the given address and keeps every other member; the filters accept exactly when filtering is off or the address is a "
                 "member. Size symbolic (1..8); 'every member' / 'every pair' are ghost positions.",
-    assumptions=["Size symbolic in [1,8]", "std::find and std::equal are represented by stand-ins (wl_find is proved against its contract; bt_equal_bytes is a 6-iteration loop)",
+    assumptions=["Size symbolic in [1,8] (add/remove/clear: quick [1,4], thorough [1,8])", "std::find and std::equal are represented by stand-ins (wl_find is proved against its contract; bt_equal_bytes is a 6-iteration loop)",
                  "the radio-backed variant forwards every call to the radio (radio_* functions); no binding in the repository implements them "
                  "(radio_maximum_white_list_entries == 0 for nRF51/52), so its set behaviour is outside the code base - not claimed"],
     trusted_base=[],
